@@ -26,7 +26,7 @@ TRUSTED = ["AddressSanitizer / UndefinedBehaviorSanitizer (gcc), harness main lo
 
 LONG = [1023, 1024, 1025, 1040, 1041, 1368, 65536]
 LIMIT_MS = 15000     # RSA keys with nonsensical private members can keep OpenSSL busy for minutes: such calls are cut off and counted
-READ_ONLY = ("jws.ver", "jws.ver_io", "jws.hdr", "jwe.hdr", "jwe.dec", "jwe.dec_jwk", "jwe.dec_cek", "jwe.dec_cek_io", "jwk.thp",
+READ_ONLY = ("jws.ver", "jws.ver_io", "jws.hdr", "jwe.hdr", "jwe.dec", "jwe.dec_jwk", "jwe.dec_cek", "jwe.dec_cek_io", "jwe.dec_io", "jwk.thp",
              "jwk.thp_buf", "jwk.eql", "jwk.prm", "jwk.exc", "ossl.roundtrip", "b64.dec", "b64.dec_load", "b64.enc_dump")
 TOKEN_MEMBERS = ("signatures", "recipients", "protected", "header", "unprotected", "payload", "signature", "encrypted_key",
                  "ciphertext", "iv", "tag", "aad", "k", "keys")
@@ -132,6 +132,10 @@ def bases(ctx, rng):
     prod.append(("jwe.enc_cek", {"jwe": {"protected": {"enc": "A128CBC-HS256"}}, "cek": {"kty": "oct", "k": G.b64u(rng.randbytes(32))}, "pt": "0011", "rand": "44" * 16}))
     prod.append(("jwe.enc_cek_io", {"jwe": {"protected": {"enc": "A256GCM", "zip": "DEF"}}, "cek": {"kty": "oct", "k": G.b64u(rng.randbytes(32))},
                                     "feeds": ["0011", "", "22" * 40], "rand": "44" * 16}))
+    prod.append(("jwe.enc_io", {"jwe": {"protected": {"alg": "A128KW", "enc": "A128CBC-HS256", "zip": "DEF"}}, "jwk": pool["oct-16"], "feeds": ["0011", "", "22" * 40],
+                                "rand": rng.randbytes(300).hex()}))
+    prod.append(("jwe.enc_io", {"jwe": {"protected": {"enc": "A256GCM"}}, "rcp": {"header": {"kid": "r"}}, "jwk": [pool["oct-32"], pool["EC-P256"]], "feeds": ["00"],
+                                "rand": rng.randbytes(400).hex()}))
     for t in ({"alg": "HS256"}, {"alg": "ES384"}, {"kty": "oct", "bytes": 24}, {"kty": "EC", "crv": "P-521"}, {"alg": "A128GCMKW", "use": "enc"},
               {"kty": "RSA", "bits": 1024}, {"kty": "RSA", "e": "AQAB", "bits": 100}):
         prod.append(("jwk.gen", {"jwk": t, "rand": rng.randbytes(80).hex()}))
@@ -162,6 +166,16 @@ def bases(ctx, rng):
             out.append(("jwe.hdr", {"jwe": tok, "rcp": rc[0] if isinstance(rc, list) and rc else tok}))
             if isinstance(rc, list) and rc:
                 out.append(("jwe.dec_jwk", {"jwe": tok, "rcp": rc[-1], "jwk": a["jwk"], "rand": "00" * 4096}))
+        elif o == "jwe.enc_io":
+            try:
+                raw = G.b64d(r["jwe"]["ciphertext"])
+                det = {k: v for k, v in r["jwe"].items() if k != "ciphertext"}
+                out.append(("jwe.dec_io", {"jwe": det, "jwk": a["jwk"], "feeds": [raw[:5].hex(), raw[5:].hex()], "rand": "00" * 4096}))
+                rc = det.get("recipients")
+                if isinstance(rc, list) and rc:
+                    out.append(("jwe.dec_io", {"jwe": det, "rcp": rc[0], "jwk": a["jwk"], "feeds": [raw.hex()], "rand": "00" * 4096}))
+            except Exception:
+                pass
         elif o == "jwe.enc_cek":
             out.append(("jwe.dec_cek", {"jwe": r["jwe"], "cek": a["cek"]}))
         elif o == "jwe.enc_cek_io":
@@ -313,7 +327,7 @@ def canon(op, args, r):
             # RSA1_5 hands out a random content key when the padding is bad (drawn from the tape while it lasts, from the
             # real generator behind it): neither its bytes nor, past the tape, its length are comparable
             r = dict(r, v=dict(r["v"], k="<k>"))      # (not even its length: the model stops at the end of the tape)
-        if op in ("jws.sig", "jws.sig_io", "jwe.enc", "jwe.enc_jwk", "jwk.gen", "ossl.roundtrip") :
+        if op in ("jws.sig", "jws.sig_io", "jwe.enc", "jwe.enc_io", "jwe.enc_jwk", "jwk.gen", "ossl.roundtrip") :
             return {k: v for k, v in r.items() if k in ("ok", "imported", "args_mutated", "refs_changed", "crash", "error")}
     return r
 
